@@ -1,6 +1,6 @@
 (** C07: -noast parsers accept the same language and feed captures to inline actions. *)
 From PegV Require Import Base.Tac Spec.Syntax Spec.Peg Spec.WF Model.Machine Model.Runtime Model.Optimize Model.Gen
-  Proofs.OptSound Proofs.Top Proofs.OptTop Properties.Example.
+  Model.Analyses Model.Emit Model.SEmit Model.Exec Proofs.OptSound Proofs.Top Proofs.OptTop Proofs.SEmitFile Properties.Example.
 Local Open Scope nat_scope.
 
 (** A parser generated with -noast (with any -inline decision; with -switch the grammar term is the
@@ -19,6 +19,24 @@ Theorem C07_noast_language_and_actions :
       match fst rr with Succ p _ => pos st' = p /\ p <= length buf | Fail => True end.
 Proof. exact c07_noast. Qed.
 Print Assumptions C07_noast_language_and_actions.
+
+(** ... and for the statements of the generated -noast file (Model/SEmit.v under the goto semantics of
+    Model/Exec.v, see C01): the action texts are pasted into the rule functions ([SLogAct k]) and captures set the
+    text register ([SCapture n]: begin := positionN; end := position; text = ...).  Calling the entry's function
+    in a reset parser returns the verdict and offset of the semantics and has run the actions in the order of
+    Execute's loop over every event of the attempt. *)
+Theorem C07_generated_code_noast :
+  forall g ptx buf penv, good_grammar g -> good_buf buf -> good_switches g ->
+  forall inline n r st0 rr,
+    (forall rb, nth_error g ptx = Some rb -> rb = RNil) ->
+    deep_table_b g inline = true -> o_inline (mk_opts false false inline g) r = false -> reached (count_rules g) r = true ->
+    peg_parse g ptx buf penv (S n) r = Some rr ->
+    exists st', xcall buf penv (mk_opts false false inline g) (gen_fn_noast g ptx inline) r (reset st0)
+                      (Ret (match fst rr with Fail => false | Succ _ _ => true end) st') /\
+      alog st' = execute g ptx (snd rr) (text st0) /\
+      match fst rr with Succ p _ => pos st' = p /\ p <= length buf | Fail => True end.
+Proof. exact generated_code_noast. Qed.
+Print Assumptions C07_generated_code_noast.
 
 (** -noast together with -switch: the -noast parser of the optimised tree terminates with the verdict
     and the consumed prefix of the PEG semantics of the ORIGINAL tree - the language of the default
